@@ -4,20 +4,9 @@
   `printSchemaT o s = printSchemaT { o with descriptions := true } (stripSchema s)` when `o.descriptions = false`.
 -/
 import PyGqlModel.Lemmas.SdlTextRewrapPrint
+import PyGqlModel.SdlAstToDoc
 namespace PyGql.SdlText
 open PyGql PyGql.Ast PyGql.Sdl PyGql.SdlPrint
-
-/-! ### the schema without its descriptions -/
-
-def stripArg (a : ArgD) : ArgD := { a with desc := none }
-def stripField (f : FieldD) : FieldD := { f with desc := none, args := f.args.map stripArg }
-def stripEnumVal (v : EnumValD) : EnumValD := { v with desc := none }
-def stripType (t : TypeD) : TypeD :=
-  { t with desc := none, fields := t.fields.map stripField, values := t.values.map stripEnumVal, inputFields := t.inputFields.map stripArg }
-def stripDirective (d : DirectiveD) : DirectiveD := { d with desc := none, args := d.args.map stripArg }
-/-- every description removed (what a schema rebuilt from a text printed with `include_descriptions=False` carries) -/
-def stripSchema (s : SchemaD) : SchemaD :=
-  { s with types := s.types.map stripType, directives := s.directives.map stripDirective }
 
 /-! ### default values do not look at descriptions -/
 
